@@ -468,6 +468,12 @@ func (g *wgen) genFieldsOf() {
 			prov = append(prov, ftypes[i])
 		}
 	}
+	// the field list need not follow the declaration order of the struct
+	for i := 0; i < len(names)-1; i++ {
+		j := i + rapid.IntRange(0, len(names)-1-i).Draw(g.rt, "ffperm")
+		names[i], names[j] = names[j], names[i]
+		prov[i], prov[j] = prov[j], prov[i]
+	}
 	g.addUnit(WElem{Kind: "fieldsof", Struct: sid, Fields: names, Ptr: ptr}, []TypeID{res}, prov)
 }
 
